@@ -401,9 +401,28 @@ def _full_launch_def(e, k) -> bool:
   if e.lc is None:
     return False
   own = tuple(T("tid", t) for t in range(e.lc.keval.ntid))
+
+  def covers(idx):
+    """the thread's own index, trailing dimensions possibly swept by loops `for j in range(<extent parameter / shape>)`
+    (one row per thread instead of one cell per thread): extents are trusted like launch dimensions are"""
+    if tuple(idx) == own[: len(idx)]:
+      return True
+    ntid = 0
+    for ix in idx:
+      if ntid < len(own) and ix is own[ntid]:
+        ntid += 1
+        continue
+      if isinstance(ix, T) and ix.op == "lv":
+        info = e.lc.keval.loops.get(ix.args[0], {})
+        lo, hi = info.get("lo"), info.get("hi")
+        if isinstance(lo, T) and lo.op == "c" and lo.args[0] == 0 and isinstance(hi, T) and hi.op in ("p", "shape", "cv"):
+          continue
+      return False
+    return ntid >= 1
+
   cond = []
   for a in e.lc.keval.accesses:
-    if a.kind == "w" and effects.array_key(e.lc, a.root) == k and len(a.idx) >= 1 and tuple(a.idx) == own[: len(a.idx)]:
+    if a.kind == "w" and effects.array_key(e.lc, a.root) == k and len(a.idx) >= 1 and covers(a.idx):
       dd = [(t, p) for t, p in pc_literals(a.pc) if any(s.op in ("ld", "at") for s in subterms(t))]
       if not dd:
         return True
